@@ -25,7 +25,7 @@
    sweep does to an UNpinned node (that is part (a)). *)
 From Coq Require Import ZArith List Bool.
 From BT Require Import Model.RTree Model.TreeSpec Model.Persist Model.PersistSpec Proofs.SyncProofs.
-From BT Require Import Model.Search Model.Pins Proofs.PinsProofs.
+From BT Require Import Model.Search Model.Pins Proofs.PinsProofs Proofs.PinsBoundProofs.
 Import ListNotations.
 Open Scope Z_scope.
 
@@ -100,6 +100,18 @@ Theorem C05_range2_protect :
          (observe (ptr (range2_tr ((id, ps) :: rest) p2 lowfound c)) P).
 Proof. exact PinsProofs.range2_protect. Qed.
 
+(* hand-over: however deep the tree, a lookup holds at most two pins of its own while it runs (the bottom interior
+   node and the bucket), a range-end search at most three (the root as well) -- every other node stays evictable *)
+Theorem C05_lookup_pins_bounded :
+  forall (p : list (nat * list Z)) (c : option nat) (P : list nat),
+  Forall (fun o => (length (opins o) <= length P + 2)%nat) (observe (ptr (get_tr p c)) P).
+Proof. exact PinsBoundProofs.get_pins_bounded. Qed.
+
+Theorem C05_range_pins_bounded :
+  forall (p : list (nat * list Z)) (c : option nat) (P : list nat),
+  Forall (fun o => (length (opins o) <= length P + 3)%nat) (observe (ptr (range_tr p c)) P).
+Proof. exact PinsBoundProofs.range_pins_bounded. Qed.
+
 (* a three-level tree: the three disciplines differ, and a raising comparison is really cut short *)
 Definition ex_tree : wtr :=
   WTN [WTK 0 (WTN [WTK 0 (WTL [1; 2]); WTK 5 (WTL [5; 6])]);
@@ -126,3 +138,5 @@ Print Assumptions C05_pins_comparisons.
 Print Assumptions C05_pins_failure_cuts_short.
 Print Assumptions C05_range2_released.
 Print Assumptions C05_range2_protect.
+Print Assumptions C05_lookup_pins_bounded.
+Print Assumptions C05_range_pins_bounded.
